@@ -5,7 +5,6 @@
 #[verifier::external_body] pub struct ArrayPopExpr { _p: u8 }
 #[verifier::external_body] pub struct Identifier { _p: u8 }
 #[verifier::external_body] pub struct VariableName { _p: u8 }
-#[verifier::external_body] pub struct PoeticNumberLiteral { _p: u8 }
 #[verifier::external_body] pub struct PoeticAssignment { _p: u8 }
 #[verifier::external_body] pub struct Function { _p: u8 }
 #[verifier::external_body] pub struct FunctionCall { _p: u8 }
@@ -22,6 +21,12 @@
 //@end
 //@item src/frontend/ast.rs | enum | RoundingDirection
 //@derive Clone, Copy
+//@end
+//@item src/frontend/ast.rs | enum | PoeticNumberLiteralElem
+//@end
+//@item src/frontend/ast.rs | struct | PoeticNumberLiteral
+//@end
+//@item src/frontend/ast.rs | enum | PoeticNumberAssignmentRHS
 //@end
 //@item src/frontend/ast.rs | struct | UnaryExpression
 //@end
@@ -76,8 +81,9 @@
 /// their `next` argument (defunctionalised: Level::X stands for Parser::parse_X)
 #[derive(Clone, Copy)]
 pub enum Level { Expression, Comparison, Term, Factor, Unary }
-pub enum K { Stmt, Expr, ExprList, Primary, Lhs, Blk, Ident, VarName, PoeticNum, WordStmt, Level(Level), ListOf(Level) }
+pub enum K { Stmt, Expr, ExprList, Primary, Lhs, Blk, Ident, VarName, PoeticNum, WordStmt, Level(Level), ListOf(Level), PoeticElems }
 pub enum Out {
     Stmt(Option<Statement>), Expr(Expression), ExprList(ExpressionList), Primary(PrimaryExpression), Lhs(AssignmentLHS), Blk(Block),
     Ident(Option<WithRange<Identifier>>), VarName(Option<WithRange<VariableName>>), PoeticNum(PoeticNumberLiteral), WordStmt(Statement),
+    PoeticElems(Vec<PoeticNumberLiteralElem>),
 }
